@@ -6,6 +6,7 @@ Keras 3 no longer offers.  Each stub reproduces the documented legacy behaviour 
   Layer.output_shape           static output shape (a list of shapes for InputLayer, as in legacy Keras)
   Layer.input_shape            static input shape  (same convention)
   Layer.get_output_at(i) / get_input_at(i)   the layer's output / input tensor (single-node layers only)
+  Variable.get_shape()         the variable's static shape with .as_list() (legacy layer weights were tf.Variables)
 
 install() is idempotent and only adds attributes that are missing.
 """
@@ -60,4 +61,11 @@ def install():
   if not hasattr(L, "get_input_at"):
     L.get_input_at = lambda self, i: self.input
     added.append("Layer.get_input_at")
+  try:
+    from keras.src.backend.common.variables import Variable as KVar
+    if not hasattr(KVar, "get_shape"):
+      KVar.get_shape = lambda self: _Shape(self.shape)
+      added.append("Variable.get_shape")
+  except Exception:  # pylint: disable=broad-except
+    pass
   return added
